@@ -1,6 +1,6 @@
 (* Wire entry points of the C08 model (local tensor quadrature grids). *)
 From Coq Require Import ZArith List QArith Qcanon Bool Arith.
-From SG Require Import Base.Sx Base.QcUtil Model.Tensor Model.LocalGrids.
+From SG Require Import Base.Sx Base.QcUtil Model.Tensor Model.LocalGrids Model.LocalRules.
 Import ListNotations.
 Open Scope Z_scope.
 
@@ -36,6 +36,90 @@ Definition get_box (s : sx) : option (list (Qc * Qc)) :=
 (* first degree whose moment check fails, or -1 *)
 Fixpoint first_bad {A} (f : A -> bool) (l : list A) (i : Z) : Z :=
   match l with [] => -1 | x :: r => if f x then first_bad f r (i + 1) else i end.
+
+
+(* (fam bnd (a b s e level)) *)
+Definition get_dimspec (s : sx) : option dimspec :=
+  match s with
+  | Lv [Zv fam; bnd; d] =>
+    match eqfam_of fam, get_bool bnd, get_dim1 d with
+    | Some f, Some b, Some x => Some (f, b, x)
+    | _, _, _ => None
+    end
+  | _ => None
+  end.
+Definition get_dimspecs (s : sx) : option (list dimspec) :=
+  match s with Lv l => opt_all (map get_dimspec l) | _ => None end.
+
+(* round 2:
+   sub 4: (kind normalize s e refpts refwts) -> (pts wts)   the affine map of the family's code applied to its reference
+          rule: kind 0 Gauss-Legendre (reference on [-1,1]), 1 Leja (reference on [0,1]), 2 Clenshaw-Curtis
+          (reference on [-1,1]: cos_i = -refpts_i, factor_i = refwts_i)
+   sub 5: (((fam bnd (a b s e level)) ...) ((k_1 .. k_d) ...)) -> as sub 0, with a family and a flag per dimension
+   sub 6: (xs ws s e rtol) -> (interp_ok (interpolatory weights of the nodes xs))
+   sub 7: (coords1d weights1d ((k_1 .. k_d) ...)) -> (points weights (integral per exponent vector))  generic tensor rule
+   sub 8: (npwb lo np Ktable Ctable s e) -> (pts wts)   Clenshaw-Curtis closed form, cos values supplied as tables
+   sub 9: (fam bnd (a b s e level)) -> (pts wts)   1D rule with the proposed level-0 repair
+   sub 10: (bnd a b s e level) -> (np npwb lo up slice_length)   Leja counts with the proposed repair *)
+Definition entry_C08_round2 (sub : Z) (a : sx) : sx :=
+  match sub, a with
+  | 4, Lv [Zv kind; nrm; s; e; rc; rw] =>
+    match get_bool nrm, get_Qc s, get_Qc e, get_LQc rc, get_LQc rw with
+    | Some nrm, Some s, Some e, Some rc, Some rw =>
+      match kind with
+      | 0 => Lv [of_LQc (gl_pts s e rc); of_LQc (gl_wts nrm s e rw)]
+      | 1 => Lv [of_LQc (leja_pts s e rc); of_LQc (leja_wts s e rw)]
+      | 2 => Lv [of_LQc (cc_pts s e (map Qcopp rc)); of_LQc (cc_wts s e rw)]
+      | _ => sx_err 41
+      end
+    | _, _, _, _, _ => sx_err 4
+    end
+  | 5, Lv [ds; exps] =>
+    match get_dimspecs ds, get_LLnat exps with
+    | Some ds, Some exps =>
+      Lv [ of_Lnat (gridm_num_points ds);
+           of_LLQc (gridm_coords ds);
+           of_LLQc (gridm_weights1 ds);
+           of_LLQc (gridm_points ds);
+           of_LQc (gridm_weights ds);
+           of_LQc (map (gridm_integrate_monomial ds) exps);
+           of_LQc (map (box_moment (map ds_dim ds)) exps) ]
+    | _, _ => sx_err 5
+    end
+  | 6, Lv [xs; ws; s; e; rtol] =>
+    match get_LQc xs, get_LQc ws, get_Qc s, get_Qc e, get_Qc rtol with
+    | Some xs, Some ws, Some s, Some e, Some rtol =>
+      Lv [ sx_bool (interp_ok xs ws s e rtol); of_LQc (interp_weights xs s e) ]
+    | _, _, _, _, _ => sx_err 6
+    end
+  | 7, Lv [cs; ws; exps] =>
+    match get_LLQc cs, get_LLQc ws, get_LLnat exps with
+    | Some cs, Some ws, Some exps =>
+      Lv [ of_LLQc (cross cs); of_LQc (tensor_weights ws);
+           of_LQc (map (fun k => integrate_rule (prodf (map mono k)) cs ws) exps) ]
+    | _, _, _ => sx_err 7
+    end
+  | 8, Lv [Zv npwb; Zv lo; Zv np; kt; ct; s; e] =>
+    match get_LQc kt, get_LQc ct, get_Qc s, get_Qc e with
+    | Some kt, Some ct, Some s, Some e =>
+      Lv [ of_LQc (cc_rule_pts (Z.to_nat npwb) (Z.to_nat lo) (Z.to_nat np) (table_fn kt) s e);
+           of_LQc (cc_rule_wts (Z.to_nat npwb) (Z.to_nat lo) (Z.to_nat np) (table_fn ct) s e) ]
+    | _, _, _, _ => sx_err 8
+    end
+  | 9, Lv [Zv fam; bnd; d] =>
+    match eqfam_of fam, get_bool bnd, get_dim1 d with
+    | Some f, Some b, Some x => Lv [of_LQc (eq_points_fx f b x); of_LQc (eq_weights_fx f b x)]
+    | _, _, _ => sx_err 9
+    end
+  | 10, Lv [bnd; a; b; s; e; Zv l] =>
+    match get_bool bnd, get_Qc a, get_Qc b, get_Qc s, get_Qc e with
+    | Some bnd, Some a, Some b, Some s, Some e =>
+      let '(np, npwb, lo, up, len) := leja_info_fx bnd a b s e (Z.to_nat l) in
+      of_Lnat [np; npwb; lo; up; len]
+    | _, _, _, _, _ => sx_err 10
+    end
+  | _, _ => sx_err 0
+  end.
 
 (* sub 0: (fam bnd ((a b s e level) ...) ((k_1 .. k_d) ...))
           -> (numPoints coords1d weights1d points weights (integral per exponent vector) (exact moment per exponent vector))
@@ -80,5 +164,5 @@ Definition entry_C08 (sub : Z) (a : sx) : sx :=
            Zv (first_bad (nd_moment_ok pts wts box rtol) expss 0) ]
     | _, _, _, _, _ => sx_err 4
     end
-  | _, _ => sx_err 0
+  | _, _ => entry_C08_round2 sub a
   end.
